@@ -12,23 +12,7 @@ import baize.wsgi.responses as wsgi_responses
 
 asgi_middleware = importlib.import_module("baize.asgi.middleware")  # the package attribute is the decorator
 
-from .common import OpTimeout, corpus_lines
-import signal
-
-
-def with_alarm(seconds, fn, *a):
-    """like common.with_alarm, but the alarm keeps firing every 2 s once it is due: an OpTimeout swallowed by a
-    generator finaliser ('Exception ignored in ...') must not leave the operation blocked for good"""
-    def handler(signum, frame):
-        raise OpTimeout()
-
-    old = signal.signal(signal.SIGALRM, handler)
-    signal.setitimer(signal.ITIMER_REAL, seconds, 2)
-    try:
-        return fn(*a)
-    finally:
-        signal.setitimer(signal.ITIMER_REAL, 0)
-        signal.signal(signal.SIGALRM, old)
+from .common import OpTimeout, corpus_lines, with_alarm
 
 PROPERTY = "C20"
 LEAN_MODULES = ["BaizeVerif.Props.C20"]
@@ -210,6 +194,10 @@ def record_wsgi(app, environ=None):
     trace = []
 
     def start_response(status, headers, exc_info=None):
+        if exc_info is not None and trace and trace[-1][0] == "start" and not any(ev[0] == "chunk" for ev in trace):
+            # PEP 3333: start_response may be called again with exc_info while no output has been sent; the new
+            # status and headers REPLACE the earlier ones
+            trace.pop()
         trace.append(("start", status, list(headers)))
 
     env = {"REQUEST_METHOD": "GET", "SCRIPT_NAME": "", "PATH_INFO": "/", "QUERY_STRING": "", "SERVER_NAME": "testserver",
@@ -387,9 +375,24 @@ def scripted_wsgi(counter, start_at, status, headers, chunks, err, form):
         if err:
             raise exc_class(err)("scripted")
 
+    def restart(start_response):
+        # the error path of PEP 3333: a response was started, then abandoned before any output, and
+        # start_response is called AGAIN with exc_info - only the second status and headers count
+        start_response("200 OK", [("content-type", "text/abandoned"), ("content-length", "5"), ("x-abandoned", "1"),
+                                  ("set-cookie", "old=1"), ("cache-control", "max-age=3600")])
+        try:
+            raise RuntimeError("abandoned")
+        except RuntimeError:
+            import sys
+            start_response(status, list(headers), sys.exc_info())
+
     def app(environ, start_response):
         counter.n += 1
         form_ = form if (not err and start_at in (0, None)) else "g"
+        if form_ == "x":
+            if start_at == 0:
+                restart(start_response)
+            return list(chunks)
         if form_ == "l":  # calls start_response synchronously and returns a list (only generated for start_at in (0, None), no err)
             if start_at == 0:
                 start_response(status, list(headers))
@@ -414,11 +417,33 @@ def parse_wsgi_line(line):
 
 def scripted_asgi(counter, events, err):
     files = []
+    zdata = [ev[1] for ev in events if ev[0] == "z"]
+    # two or more zero-copy events: every other script takes them from ONE file, the first piece by offset + count,
+    # a later piece of even length by count alone (it starts where the descriptor stands after the previous piece)
+    shared = len(zdata) >= 2 and sum(len(d) for d in zdata) % 2 == 0
+    state = {"fd": None, "pos": 2, "k": 0}
 
     async def app(scope, receive, send):
         counter.n += 1
         try:
             for ev in events:
+                if ev[0] == "z" and shared:
+                    if state["fd"] is None:
+                        path = os.path.join(_TMP, "zc-shared")
+                        with open(path, "wb") as f:
+                            f.write(b"<<" + b"".join(zdata) + b">>")
+                        state["fd"] = os.open(path, os.O_RDONLY)
+                        files.append(state["fd"])
+                    data = ev[1]
+                    msg = {"type": "http.response.zerocopysend", "file": state["fd"], "count": len(data)}
+                    if state["k"] == 0 or len(data) % 2 == 1:
+                        msg["offset"] = state["pos"]
+                    state["pos"] += len(data)
+                    state["k"] += 1
+                    if ev[2] is not None:
+                        msg["more_body"] = ev[2]
+                    await send(msg)
+                    continue
                 if ev[0] == "s":
                     msg = {"type": "http.response.start", "status": ev[1]}
                     if ev[2] is not None:
@@ -1208,7 +1233,7 @@ def cases(rng, tier):
                     for start_at in (0, None, 1, 2):
                         for err in (None, "Boom"):
                             yield mk_wsgi(hs, start_at, status, headers, chunks, err)
-                    for form in ("l", "t", "i"):
+                    for form in ("l", "t", "i", "x"):
                         yield mk_wsgi(hs, 0, status, headers, chunks, None, form)
     # exhaustive small domain, ASGI
     for hs in SMALL_STACKS:
@@ -1231,10 +1256,11 @@ def cases(rng, tier):
             chunks = [random_chunk(rng) for _ in range(rng.choice([0, 1, 1, 2, 3, 5]))]
             start_at = rng.choice([0, 0, 0, 0, 0, 0, None, 1, len(chunks), rng.randrange(0, 4)])
             err = rng.choice([None, None, None, "Boom", "KeyError", "ValueError"])
-            form = rng.choice(["g", "g", "l", "t", "i"])
+            form = rng.choice(["g", "g", "l", "t", "i", "x"])
             yield mk_wsgi(hs, start_at, random_status(rng), headers, chunks, err, form)
         elif kind < 0.9:
             n = rng.choice([0, 1, 1, 2, 3, 5])
+            zc_heavy = rng.random() < 0.15      # a download in several zero-copy pieces
             events = [("s", rng.choice([200, 204, 299, 404, 599, 0, 1000]), rng.choice([headers, headers, headers, None]))]
             for i in range(n):
                 last = i == n - 1
@@ -1242,7 +1268,7 @@ def cases(rng, tier):
                 if last and more is False and rng.random() < 0.3:
                     more = None
                 data = random_chunk(rng)
-                t = "z" if rng.random() < 0.2 else "b"
+                t = "z" if rng.random() < (0.2 if zc_heavy is False else 0.8) else "b"
                 events.append((t, None if (t == "b" and data == b"" and rng.random() < 0.5) else data, more))
             r = rng.random()
             if r < 0.05 and events:
